@@ -1,4 +1,4 @@
-prop("C12", pkg="c12",
+prop("C12", pkg="c12", fuzz=[("FuzzWireDiff", 60)],
      rule="rapid draws a message schema (1-4 messages forming a DAG, 0-7 fields each: bool/int/int32/int64/uint/uint32/uint64/float32/float64/string/[]byte, "
           "repeated, map<K,V> with integral/bool/string keys, nested message by value or pointer incl. single-field 'inlined' shapes; in 2/3 of the schemas message slots (singular, pointer, repeated element, map value) may also be of two "
           "struct-kind self-encoding types, pschema.PMsg implementing proto.Message and pschema.CMsg implementing the gogo-style Size/MarshalTo/Unmarshal interface, both "
@@ -11,11 +11,23 @@ prop("C12", pkg="c12",
           "occurrence of a singular scalar field, a singular embedded message split into 2-3 occurrences; a re-encoding is kept only if the reference decodes it to v). "
           "Non-trivial = at least one non-default field and, for a transformed encoding, at least one transformation changed the bytes; distinct = FNV-64 of "
           "(direction, schema JSON, value JSON, by-pointer flag or wire bytes). While listed as known, the generator avoids by construction: field numbers > 65535, "
-          "zigzag/fixed on repeated fields, multi-byte bool varints, decode of values with a repeated field of more than 10 elements (counts under excluded_known).",
+          "zigzag/fixed on repeated fields, multi-byte bool varints, decode of values with a repeated field of more than 10 elements (counts under excluded_known). "
+          "Thorough tier only: a native Go fuzzing campaign FuzzWireDiff (60 s, coverage-guided, not seed-reproducible - the saved case is the reproducible unit) over "
+          "(wire bytes <= 4 KiB, selector of 11 fixed message types: every scalar kind; sint/fixed tags and numbers 15/16/1023/1024/2047/2048/65535; unpacked repeated scalars; "
+          "repeated sint/fixed; nested by value/pointer/repeated; maps of scalars; maps of messages; PMsg/CMsg slots in every position; an inlined pointer chain; numbers "
+          "above 1023 and 65535; mixed tagged/untagged nesting), seeded with reference encodings of generated values, their truncations and ~30 hostile constants (10/11-byte "
+          "and overflowing varints, lengths 0/1/2^31/2^63, duplicate and split fields, every wire type on field 1, packed form, truncated and reordered map entries, field "
+          "numbers 0 and 2^29, groups, invalid UTF-8, 33-bit int32, bool 2). Fuzz rule: protobuf decoders legitimately differ on malformed input, so the acceptance comparison "
+          "is restricted to inputs the REFERENCE accepts and that are encodings of the message type: no declared field number with another wire type (this includes the "
+          "packed form, which the property excludes), no group wire types, bool values 0/1 and 32-bit varints within 32 bits (sign-extended for int32); undeclared field "
+          "numbers are allowed. For those: (a) seg.Unmarshal must accept and decode the same content as the reference (floats by bits except the quiet bit of float32 NaNs), "
+          "(b) seg.Marshal of the decoded value must be decoded by the reference to the same content and Size == len(Marshal). For every other input (reference rejects or "
+          "panics, outside the domain) only 'seg.Unmarshal does not panic and does not modify the input' is required. Zero-length map entries are skipped while KF-C12-006 "
+          "is known (the package reads them as its own empty-map marker). Fuzz executions are added to evaluations.",
      quick=dict(shards=8, scale=1, timeout=600),
      thorough=dict(shards=16, scale=2, timeout=3000),
      technique="rapid property-based differential testing against google.golang.org/protobuf v1.26.0 (protodesc + dynamicpb + protowire surgery) on generated "
-               "struct types and values, both directions",
+               "struct types and values, both directions; native go fuzzing (go test -fuzz) of raw wire bytes against the same reference in the thorough tier",
      level_text="Exploration by differential testing: about 0.7 M oracle evaluations per quick run over 40 000 generated message types compare the package with "
                 "protobuf-go in both directions; a disagreement in any generated (type, value, legal re-encoding) is reported with a replayable case. Held = no "
                 "disagreement outside the classes listed in known_findings.json: of the 8 genuine defects this check found, 7 are repaired in /repo (status fixed; their "
